@@ -392,7 +392,7 @@ Definition c_expire_at (now : N) (w : Z) (nx xx gt lt : bool) (oe : option (valu
 (* EXPIRE: seconds relative to now; overflow of the conversion or of the addition is an error,
    detected before the key is looked up *)
 Definition c_expire (now : N) (sec : Z) (nx xx gt lt : bool) (oe : option (value * option N)) :=
-  if (sec >? I64MAX / 1000) || (sec <? I64MIN / 1000) then (oe, RErr EInvalidExpire)
+  if (sec >? I64MAX / 1000) || (sec <? Z.quot I64MIN 1000) then (oe, RErr EInvalidExpire)
   else if sec * 1000 >? I64MAX - Z.of_N now then (oe, RErr EInvalidExpire)
   else c_expire_at now (sec * 1000 + Z.of_N now) nx xx gt lt oe.
 
@@ -401,7 +401,7 @@ Definition c_pexpire (now : N) (ms : Z) (nx xx gt lt : bool) (oe : option (value
   else c_expire_at now (ms + Z.of_N now) nx xx gt lt oe.
 
 Definition c_expireat (now : N) (ts : Z) (oe : option (value * option N)) :=
-  if (ts >? I64MAX / 1000) || (ts <? I64MIN / 1000) then (oe, RErr EInvalidExpire)
+  if (ts >? I64MAX / 1000) || (ts <? Z.quot I64MIN 1000) then (oe, RErr EInvalidExpire)
   else c_expire_at now (ts * 1000) false false false false oe.
 
 Definition c_pexpireat (now : N) (tms : Z) (oe : option (value * option N)) :=
